@@ -67,3 +67,27 @@ def violation(R, key, problems, cmd):
 
 def step_for(R):
     return 60 if R.tier == 'thorough' else 86400
+
+
+def abbrev_run(R, mode):
+    """function-level bounded stand-in for createAbbreviation / copyAndReplace of one processor (rtc/abbrev.cpp, ASan+UBSan)"""
+    import json as _json
+    key = ('abbrev', True)
+    if key not in _state:
+        _state[key] = native.build_harness('abbrev', san=True)
+    maxlen = 7 if R.tier == 'thorough' else 6
+    rc, out, err = native.run(_state[key], [mode, str(maxlen)], timeout=3000)
+    res = dict(evaluations=0, distinct=0, fails=[], crashed=[])
+    for line in out.split('\n'):
+        if line.startswith('FAIL'):
+            res['fails'].append(line[5:].strip())
+        elif line.startswith('SUMMARY'):
+            j = _json.loads(line[8:])
+            res['evaluations'], res['distinct'] = j['evaluations'], j['distinct']
+    if rc not in (0, 1):
+        res['crashed'].append(dict(slice='abbrev ' + mode, rc=rc, stderr=err))
+    return record(R, '%s createAbbreviation / copyAndReplace vs the zic reading of FORMAT (function level, ASan+UBSan)' % mode,
+                  'every FORMAT over {A,b,%%,/,+} of length 0..%d with at most one %% x buffer sizes {2,4,7} x DST shifts x letters (none, empty, one character%s)' % (
+                      maxlen, ', "WAT", "LONGER"' if mode == 'extended' else ''), res,
+                  'one evaluation = one call compared character by character with an independently written reading of FORMAT, plus termination and the byte after the buffer; distinct = formats',
+                  [dict(format='A%b', letter='S', dst=True, expect='ASb'), dict(format='A/b+', dst=False, expect='A')])
